@@ -336,11 +336,45 @@ fn run<C: Cs>(ctx: &Ctx, idx: u64, nmax: usize, with_trusted: bool) {
             let tamper = (n == 2 && u == vec![1]) || (n == 3 && u == vec![0, 2]) || (!ctx.quick() && k % 5 == 0);
             issuance::<C>(ctx, &st, None, &mut r, n, u.clone(), tamper && !with_trusted);
             if let Some(ck) = &own {
-                let ckn = CL03CommitmentPublicKey { N: ck.N.clone(), h: ck.h.clone(), g_bases: ck.g_bases[..n].to_vec() };
+                // the trusted party's key needs bases for the hidden positions only: exactly n, roomy (nmax), or just enough
+                let covering = u.iter().max().unwrap() + 1;
+                let size = [n, covering, nmax][rand_range(&mut r, 3)];
+                ctx.count(&format!("trusted_key_bases_{}", if size == n { "exactly_n" } else if size < n { "fewer_than_n" } else { "more_than_n" }), 1);
+                let ckn = CL03CommitmentPublicKey { N: ck.N.clone(), h: ck.h.clone(), g_bases: ck.g_bases[..size].to_vec() };
                 issuance::<C>(ctx, &st, Some(&ckn), &mut r, n, u, tamper);
             }
         }
     }
+}
+
+/// volume: many honest issuance proofs of one small shape, verified as the issuer sees them
+fn volume<C: Cs>(ctx: &Ctx, idx: u64, count: usize) {
+    let mut r = ctx.rng("c14v", idx);
+    let n = 2usize;
+    let Some(st) = Setup::<C>::new(ctx, n) else {
+        ctx.inconclusive("C14: key generation panicked (C18's business)");
+        return;
+    };
+    let bases = st.bases_n(n);
+    let msgs = attributes::<C>(&mut r, n, 0);
+    let u = vec![0usize, 1];
+    let items: Vec<usize> = (0..count).collect();
+    let case = format!("{}/volume/n2/U=[0,1]", C::NAME);
+    ctx.distinct(&case);
+    par_for_each(&items, 16, |_k| {
+        let com = Commitment::<CL03<C>>::commit_with_pk(&msgs, st.pk(), &bases, Some(&u));
+        let Some(zk) = ctx.call("ZKPoK::generate_proof", &case, None, || Ok::<_, ()>(Zk::<C>::generate_proof(&msgs, com.cl03Commitment(), None, st.pk(), &bases, None, &u))).value else {
+            ctx.violation("C14:generate_proof-panicked", json!({"case":case}));
+            return;
+        };
+        let v = ctx.call("ZKPoK::verify_proof", &case, None, || Ok::<_, ()>(zk.verify_proof(&wire(com.cl03Commitment()), None, st.pk(), &bases, None, &u)));
+        if v.value != Some(true) {
+            let j = serde_json::to_value(&zk).unwrap();
+            let ch: Vec<u32> = leaves(&j).iter().filter(|(p, _)| p.ends_with("/challenge") || p.ends_with("/C")).map(|(_, v)| v.significant_bits()).collect();
+            ctx.violation("C14:honest-proof-rejected", json!({"case":case,"outcome":format!("{:?}/{}", v.value, v.outcome.short()),"challenge_bit_lengths":ch}));
+        }
+        ctx.count("volume_proofs_verified", 1);
+    });
 }
 
 pub fn scenarios(ctx: &Ctx) -> Vec<Scenario> {
@@ -352,6 +386,8 @@ pub fn scenarios(ctx: &Ctx) -> Vec<Scenario> {
     }
     v.push(scenario("CL1024/trusted", move |c| run::<CL1024Sha256>(c, 1, nmax, true)));
     v.push(scenario("CL1024/plain", move |c| run::<CL1024Sha256>(c, 2, nmax, false)));
+    let count = ctx.t(200usize, 2000usize);
+    v.push(scenario("CL1024/volume", move |c| volume::<CL1024Sha256>(c, 810, count)));
     if !ctx.quick() {
         v.push(scenario("CL1024/plain-2", move |c| run::<CL1024Sha256>(c, 3, 4, false)));
         v.push(scenario("CL1024/trusted-2", move |c| run::<CL1024Sha256>(c, 4, 4, true)));
